@@ -35,6 +35,7 @@ type Program struct {
 	LoadS   float64
 	Cache   *Program      // the separately loaded /repo/cache module (nil inside it)
 	Ren     *base.Renames // baseline symbols that were renamed in the current tree
+	Base    *base.Symbols // the symbol table of the pinned tree
 }
 
 // Load loads root (normally /repo). Any load or type error is returned: a
@@ -102,7 +103,8 @@ func load(root, dir string, minPkgs int, overlay map[string][]byte) (*Program, e
 	if len(p.Mod) < minPkgs {
 		return nil, fmt.Errorf("expected at least %d module packages in %s, loaded %d", minPkgs, dir, len(p.Mod))
 	}
-	p.Ren = base.Resolve(base.Load(), p.Mod)
+	p.Base = base.Load()
+	p.Ren = base.Resolve(p.Base, p.Mod)
 	prog, _ := ssautil.AllPackages(pkgs, ssa.BuilderMode(0))
 	prog.Build()
 	p.Prog = prog
